@@ -346,7 +346,14 @@ func RunHostile(c *Codec, prefix, warmup []Shape, warmupN int, prefix2, cycle []
 			if lim == 0 {
 				lim = len(s.Payload)
 			}
-			if sz > lim+1024 { // + reconstructed headers (M-JPEG rebuilds ~600 bytes of JPEG segments)
+			tol := 0
+			if c.Base == "mjpeg" {
+				// no documented maximum: the bound is structural (24-bit fragment offset), so the last
+				// packet may start at offset 2^24-1 and add its own payload; plus the reconstructed
+				// headers (M-JPEG rebuilds ~600 bytes of JPEG segments)
+				tol = maxPkt + 1024
+			}
+			if sz > lim+tol {
 				return failf(c.Name+"/frame-exceeds-maximum", "step %d (%s): returned frame of %d bytes, maximum is %d", res.Steps, s.Name, sz, lim)
 			}
 			rets = append(rets, returned{units, hashUnits(units), res.Steps})
